@@ -36,7 +36,7 @@ def main():
     if ck.args.replay:
         import json
         rp = json.load(open(ck.args.replay))
-        corpus = [(lpgen.parse_lp_text(rp["lp"]), [rp.get("config", {})])]
+        corpus = [(lpgen.parse_lp_text(rp["lp"]), [{a: b for a, b in rp.get("config", {}).items() if a != "history"}])]
         lps = []
     lps = [c[0] for c in corpus] + lps
     cfgs = {}
@@ -46,55 +46,79 @@ def main():
             cfgs[k].append(lpgen.rand_config(r, {"ensureray": [0, 1]}))
     for k, c in enumerate(corpus):
         cfgs[k] = [{}] + c[1]
-    classes, exs, runs, ans, crashes, skipped = sc.run_in_chunks(ck, exe, model, lps, cfgs)
+    # histories: several solves of one LP on one object with parameter changes in between; every answer is judged as for a
+    # single solve and every optimize() call's control trace is replayed through the Coq model of the solve driver
+    hists = {k: ([] if ck.args.replay else [sc.gen_history(r) for _ in range(2 if k % 2 == 0 else 1)]) for k in range(len(lps))}
+    if ck.args.replay and (rp.get("history") or rp.get("config", {}).get("history")):
+        hh = rp.get("history") or rp["config"]["history"]
+        hists[0] = [hh.split() if isinstance(hh, str) else hh]
+    classes, exs, runs, ans, crashes, skipped = sc.run_in_chunks(ck, exe, model, lps, cfgs, hists=hists)
+    sc.driver_verdicts(ck, lps, cfgs, runs, ck.hruns, ans, skipped, hists)
     for (k, c, rc) in crashes:
+        if isinstance(c, str):
+            hs = hists[k][int(c[1:])]
+            ck.violation("crash:history", "the solver crashed (rc=%d) on LP %d in the solve history %s" % (rc, k, " ".join(hs)),
+                         {"lp": lps[k].text("replay"), "lp_format": lps[k].lp_format(), "history": hs, "kind": "crash"})
+            continue
         ck.violation("crash", "the solver crashed (rc=%d) on LP %d under %s" % (rc, k, cfgs[k][c]),
                      {"lp": lps[k].text("replay"), "lp_format": lps[k].lp_format(), "config": cfgs[k][c], "kind": "crash"})
+    def judge(k, p, cfg, ru, rid):
+        cl = classes[k]
+        st = ru["status"]
+        ck.count("status:" + st)
+        ck.count("family:" + p.family)
+        ck.evaluated((p.key(), lpgen.cfg_text(cfg), rid if rid.startswith("h") else ""), nontrivial=(p.n + p.m >= 3))
+        tags, steps = sc.presolve_tags(ru, cfg)
+        cname = cl[0] if cl else None
+        # verdicts must not contradict the certified class
+        if st == "INFEASIBLE" and cname in ("optimal", "unbounded"):
+            ck.violation("infeasible-for-feasible-lp", "INFEASIBLE returned for an LP with a certified feasible point (class %s) under %s" % (cname, cfg),
+                         sc.replay_of(p, cfg, ru, {"certified_class": cname, "exact": exs[k]}))
+        if st in ("UNBOUNDED", "INForUNBD") and cname == "optimal":
+            ck.violation("unbounded-for-bounded-lp", "%s returned for an LP with certified finite optimum %s under %s" % (st, float(cl[1]), cfg),
+                         sc.replay_of(p, cfg, ru, {"certified_optimum": lpgen.qs(cl[1])}))
+        if st == "OPTIMAL" and cname in ("infeasible", "unbounded"):
+            ck.violation("optimal-for-%s-lp:%s" % (cname, "+".join(t for t in tags if t == "polish") or "plain"), "OPTIMAL returned for an LP certified %s under %s" % (cname, cfg),
+                         sc.replay_of(p, cfg, ru, {"certified_class": cname, "exact": exs[k]}))
+        # every offered vector must be a valid proof
+        if "farkas" in ru:
+            ck.count("farkas-offered")
+            if ans[k].get("f" + rid) != "true":
+                neg = ans[k].get("fn" + rid) == "true"
+                # where the vector was computed: representation and algorithm type the solver ended in
+                site = "rep%s:alg%s" % (ru.get("rep", "?"), ru.get("alg", "?"))
+                ck.violation("farkas-%s:%s%s" % ("negated" if neg else "rejected", site, ":polish" if "polish" in tags else ""),
+                             "the Farkas vector offered with status %s is not a proof of infeasibility of the user's LP (rejected by check_farkas on the 1e6-box) under %s" % (st, cfg),
+                             sc.replay_of(p, cfg, ru, {"theorem": "Cert_Proofs.farkas_box_sound"}))
+        if "ray" in ru:
+            ck.count("ray-offered")
+            if ans[k].get("r" + rid) != "true":
+                ck.violation("ray-rejected:%s:rep%s" % ("+".join(tags) or "plain", ru.get("rep", "?")),
+                             "the primal ray offered with status %s violates a finite bound/side direction or does not improve the objective (rejected by check_ray_tol) under %s" % (st, cfg),
+                             sc.replay_of(p, cfg, ru, {"theorem": "Cert_Proofs.ray_tol_sound"}))
+        # with ENSURERAY the proof must be offered
+        if cfg.get("ensureray", 0) == 1:
+            if st == "INFEASIBLE" and "farkas" not in ru:
+                ck.violation("ensureray-no-farkas", "INFEASIBLE with ENSURERAY but no Farkas vector is offered under %s" % cfg, sc.replay_of(p, cfg, ru))
+            if st == "UNBOUNDED" and "ray" not in ru:
+                ck.violation("ensureray-no-ray", "UNBOUNDED with ENSURERAY but no primal ray is offered under %s" % cfg, sc.replay_of(p, cfg, ru))
+
     for k, p in enumerate(lps):
         if k in skipped:
             continue
         cl = classes[k]
         for ru in runs[k]:
             c = int(ru["_id"].split("!")[0])
-            cfg = cfgs[k][c]
-            st = ru["status"]
-            ck.count("status:" + st)
-            ck.count("family:" + p.family)
-            ck.evaluated((p.key(), lpgen.cfg_text(cfg)), nontrivial=(p.n + p.m >= 3))
-            tags, steps = sc.presolve_tags(ru, cfg)
-            cname = cl[0] if cl else None
-            # verdicts must not contradict the certified class
-            if st == "INFEASIBLE" and cname in ("optimal", "unbounded"):
-                ck.violation("infeasible-for-feasible-lp", "INFEASIBLE returned for an LP with a certified feasible point (class %s) under %s" % (cname, cfg),
-                             sc.replay_of(p, cfg, ru, {"certified_class": cname, "exact": exs[k]}))
-            if st in ("UNBOUNDED", "INForUNBD") and cname == "optimal":
-                ck.violation("unbounded-for-bounded-lp", "%s returned for an LP with certified finite optimum %s under %s" % (st, float(cl[1]), cfg),
-                             sc.replay_of(p, cfg, ru, {"certified_optimum": lpgen.qs(cl[1])}))
-            if st == "OPTIMAL" and cname in ("infeasible", "unbounded"):
-                ck.violation("optimal-for-%s-lp:%s" % (cname, "+".join(t for t in tags if t == "polish") or "plain"), "OPTIMAL returned for an LP certified %s under %s" % (cname, cfg),
-                             sc.replay_of(p, cfg, ru, {"certified_class": cname, "exact": exs[k]}))
-            # every offered vector must be a valid proof
-            if "farkas" in ru:
-                ck.count("farkas-offered")
-                if ans[k].get("f%d" % c) != "true":
-                    neg = ans[k].get("fn%d" % c) == "true"
-                    # where the vector was computed: representation and algorithm type the solver ended in
-                    site = "rep%s:alg%s" % (ru.get("rep", "?"), ru.get("alg", "?"))
-                    ck.violation("farkas-%s:%s%s" % ("negated" if neg else "rejected", site, ":polish" if "polish" in tags else ""),
-                                 "the Farkas vector offered with status %s is not a proof of infeasibility of the user's LP (rejected by check_farkas on the 1e6-box) under %s" % (st, cfg),
-                                 sc.replay_of(p, cfg, ru, {"theorem": "Cert_Proofs.farkas_box_sound"}))
-            if "ray" in ru:
-                ck.count("ray-offered")
-                if ans[k].get("r%d" % c) != "true":
-                    ck.violation("ray-rejected:%s:rep%s" % ("+".join(tags) or "plain", ru.get("rep", "?")),
-                                 "the primal ray offered with status %s violates a finite bound/side direction or does not improve the objective (rejected by check_ray_tol) under %s" % (st, cfg),
-                                 sc.replay_of(p, cfg, ru, {"theorem": "Cert_Proofs.ray_tol_sound"}))
-            # with ENSURERAY the proof must be offered
-            if cfg.get("ensureray", 0) == 1:
-                if st == "INFEASIBLE" and "farkas" not in ru:
-                    ck.violation("ensureray-no-farkas", "INFEASIBLE with ENSURERAY but no Farkas vector is offered under %s" % cfg, sc.replay_of(p, cfg, ru))
-                if st == "UNBOUNDED" and "ray" not in ru:
-                    ck.violation("ensureray-no-ray", "UNBOUNDED with ENSURERAY but no primal ray is offered under %s" % cfg, sc.replay_of(p, cfg, ru))
+            judge(k, p, cfgs[k][c], ru, str(c))
+        for ru in ck.hruns.get(k, []):
+            rid = ru["_id"].split("!")[0]
+            if ru["status"] == "EXCEPTION":
+                continue
+            h, n = rid[1:].split(".")
+            cfg = sc.hist_cfg(hists[k][int(h)], int(n))
+            cfg["history"] = " ".join(hists[k][int(h)])
+            ck.count("history-solve")
+            judge(k, p, cfg, ru, rid)
         if k < 2:
             ck.sample({"lp": p.text(str(k)), "class": (cl[0] if cl else None), "configs": cfgs[k][:2],
                        "statuses": [ru["status"] for ru in runs[k]]})
